@@ -197,7 +197,7 @@ fn gen_constructor(r: &mut Rng, t: usize, prof: Profile) -> Op {
         _ => gen_len(r),
     };
     if prof == Profile::Static && r.chance(3, 4) {
-        return Op::FromStatic { t, id: r.below(statics().texts.len()) };
+        return Op::FromStatic { t, id: r.below(BASE_STATICS) };
     }
     if prof == Profile::Inline {
         let s = gen_text(r, len);
@@ -238,7 +238,7 @@ fn gen_constructor(r: &mut Rng, t: usize, prof: Profile) -> Op {
         9 => Op::FromCowO { t, s },
         10 => Op::FromChar { t, c: gen_char(r) },
         11 => Op::Parse { t, s },
-        12..=13 => Op::FromStatic { t, id: r.below(statics().texts.len()) },
+        12..=13 => Op::FromStatic { t, id: r.below(BASE_STATICS) },
         14..=15 => Op::WithCap { t, n: gen_len(r), try_: r.chance(1, 2) },
         16 => Op::FromUtf8 { t, s },
         17 => Op::FromUtf8Unchecked { t, s },
